@@ -24,7 +24,9 @@
 (* event of an exhaustive tier whose operands must lie in WFSetB(w).       *)
 (* bin/cmp/un/cat/join/meet travel as sub-events of k = "batch" lines:     *)
 (*   [k |-> "batch", A, B, cls, subs |-> << <<kind, op, how, exc, p, R,    *)
-(*   rb, C>>, ... >>]  (one line per operand tuple).                       *)
+(*   rb, C>>, ... >>, A2, B2]  (one line per operand tuple; the sub-events *)
+(*   ran in this order on the same operand objects, A2/B2 = operands read  *)
+(*   back afterwards).                                                     *)
 (***************************************************************************)
 EXTENDS Term, SI, Json, IOUtils
 
@@ -226,9 +228,17 @@ FailOne(e) ==
 
 \* k = "batch": all operations recorded for one operand tuple (A, B) share one line (JSON parsing dominates the
 \* cost of validation).  Failing clauses are reported with the index of the sub-event.
+\* operand preservation: the sub-events of a batch were executed one after the other on the same operand objects;
+\* A2, B2 are the operands as read back after the sequence (<<>>: not recorded).  An operation must not change its
+\* operands (every later use of the operand would silently work on another interval).
+Strip5(V) == [i \in 1..Len(V) |-> SubSeq(V[i], 1, 5)]
+BatchBad(e) == IF (Len(e.A2) > 0 /\ e.A2 # Strip5(e.A)) \/ (Len(e.B2) > 0 /\ e.B2 # Strip5(e.B))
+               THEN {"operand-mutated"} ELSE {}
+
 Report(i, e) ==
   IF e.k = "batch"
-  THEN \A j \in 1..Len(e.subs) : \A c \in FailSub(e.A, e.B, e.cls, e.subs[j]) : PrintT(<<"BAD", i, c, j>>)
+  THEN /\ \A j \in 1..Len(e.subs) : \A c \in FailSub(e.A, e.B, e.cls, e.subs[j]) : PrintT(<<"BAD", i, c, j>>)
+       /\ \A c \in BatchBad(e) : PrintT(<<"BAD", i, c, 0>>)
   ELSE \A c \in FailOne(e) : PrintT(<<"BAD", i, c, 0>>)
 
 ASSUME LET Trace == ndJsonDeserialize(IOEnv.TRACE_FILE) IN
